@@ -7,20 +7,20 @@ import Koreo.HotReload
 set_option linter.unusedSectionVars false
 
 namespace Koreo.HotReload
-variable {R : Type} [DecidableEq R]
+variable {R : Type} [DecidableEq R] {Spec : Type}
 
 @[simp] theorem upd_same {α : Type} (f : R → α) (a : R) (b : α) : upd f a b a = b := by simp [upd]
 theorem upd_other {α : Type} (f : R → α) (a : R) (b : α) {x : R} (h : x ≠ a) : upd f a b x = f x := by
   simp [upd, h]
 
 /-- `x` has an event in its queue that is newer than its own prepare start -/
-def Pending (s : State R) (x : R) : Prop :=
+def Pending (s : State R Spec) (x : R) : Prop :=
   ∃ q, s.queue x = some q ∧ ∃ t ∈ q, s.prepT x < t
 
 /-- The invariant, with two waivers used inside composite actions: resource `r0` may be
     registered before it is cached (`qok`), and `r0`'s monitor may hold popped events `pend`
     that it has not processed yet. -/
-structure InvG (rank : R → Nat) (r0 : R) (qok : Bool) (pend : List Nat) (s : State R) : Prop where
+structure InvG (decl : Spec → (R → Bool) → List R) (rank : R → Nat) (r0 : R) (qok : Bool) (pend : List Nat) (s : State R Spec) : Prop where
   cached : ∀ x e, s.cache x = some e → s.subs x = e.deps ∧ (s.queue x).isSome = true
   uncached : ∀ x, s.cache x = none →
     s.subs x = [] ∧ s.mon x = .none ∧ (s.queue x = none ∨ (x = r0 ∧ qok = true))
@@ -30,9 +30,11 @@ structure InvG (rank : R → Nat) (r0 : R) (qok : Bool) (pend : List Nat) (s : S
   prepLt : ∀ x e, s.cache x = some e → s.prepT x < s.clock
   evLt : ∀ x q, s.queue x = some q → ∀ t ∈ q, t < s.clock
   ranked : ∀ x, ∀ d ∈ s.subs x, rank d < rank x
+  /-- every cached spec keeps its preparer's declarations within the rank -/
+  specOk : ∀ x e, s.cache x = some e → SpecRanked decl rank x e.spec
 
 /-- the invariant of reachable states -/
-structure Inv (rank : R → Nat) (s : State R) : Prop where
+structure Inv (decl : Spec → (R → Bool) → List R) (rank : R → Nat) (s : State R Spec) : Prop where
   cached : ∀ x e, s.cache x = some e → s.subs x = e.deps ∧ (s.queue x).isSome = true
   uncached : ∀ x, s.cache x = none → s.subs x = [] ∧ s.mon x = .none ∧ s.queue x = none
   watched : ∀ x e, s.cache x = some e → e.deps ≠ [] → s.mon x ≠ .none
@@ -40,9 +42,11 @@ structure Inv (rank : R → Nat) (s : State R) : Prop where
   prepLt : ∀ x e, s.cache x = some e → s.prepT x < s.clock
   evLt : ∀ x q, s.queue x = some q → ∀ t ∈ q, t < s.clock
   ranked : ∀ x, ∀ d ∈ s.subs x, rank d < rank x
+  /-- every cached spec keeps its preparer's declarations within the rank -/
+  specOk : ∀ x e, s.cache x = some e → SpecRanked decl rank x e.spec
 
-theorem Inv.toG {rank : R → Nat} {s : State R} (h : Inv rank s) (r0 : R) (qok : Bool)
-    (pend : List Nat) : InvG rank r0 qok pend s where
+theorem Inv.toG {decl : Spec → (R → Bool) → List R} {rank : R → Nat} {s : State R Spec} (h : Inv decl rank s) (r0 : R) (qok : Bool)
+    (pend : List Nat) : InvG decl rank r0 qok pend s where
   cached := h.cached
   uncached := fun x hx => let ⟨a, b, c⟩ := h.uncached x hx; ⟨a, b, Or.inl c⟩
   watched := h.watched
@@ -50,9 +54,10 @@ theorem Inv.toG {rank : R → Nat} {s : State R} (h : Inv rank s) (r0 : R) (qok 
   prepLt := h.prepLt
   evLt := h.evLt
   ranked := h.ranked
+  specOk := h.specOk
 
-theorem InvG.toInv {rank : R → Nat} {s : State R} {r0 : R}
-    (h : InvG rank r0 false [] s) : Inv rank s where
+theorem InvG.toInv {decl : Spec → (R → Bool) → List R} {rank : R → Nat} {s : State R Spec} {r0 : R}
+    (h : InvG decl rank r0 false [] s) : Inv decl rank s where
   cached := h.cached
   uncached := fun x hx => by
     obtain ⟨a, b, c⟩ := h.uncached x hx
@@ -66,10 +71,11 @@ theorem InvG.toInv {rank : R → Nat} {s : State R} {r0 : R}
   prepLt := h.prepLt
   evLt := h.evLt
   ranked := h.ranked
+  specOk := h.specOk
 
 /-! ### the initial state -/
 
-theorem inv_init (rank : R → Nat) : Inv rank (init : State R) where
+theorem inv_init (decl : Spec → (R → Bool) → List R) (rank : R → Nat) : Inv decl rank (init : State R Spec) where
   cached := by intro x e h; simp [init] at h
   uncached := by intro x _; simp [init]
   watched := by intro x e h; simp [init] at h
@@ -77,10 +83,11 @@ theorem inv_init (rank : R → Nat) : Inv rank (init : State R) where
   prepLt := by intro x e h; simp [init] at h
   evLt := by intro x q h; simp [init] at h
   ranked := by intro x d h; simp [init] at h
+  specOk := by intro x e h; simp [init] at h
 
 /-! ### primitive transformers -/
 
-theorem pending_notify {s : State R} {x : R} (d : R) (t : Nat) (h : Pending s x) :
+theorem pending_notify {s : State R Spec} {x : R} (d : R) (t : Nat) (h : Pending s x) :
     Pending (notify s d t) x := by
   obtain ⟨q, hq, t', ht', hlt⟩ := h
   unfold Pending notify
@@ -88,8 +95,8 @@ theorem pending_notify {s : State R} {x : R} (d : R) (t : Nat) (h : Pending s x)
   · exact ⟨t :: q, by simp [hd, hq], t', by simp [ht'], hlt⟩
   · exact ⟨q, by simp [hd, hq], t', ht', hlt⟩
 
-theorem invG_tick {rank : R → Nat} {r0 : R} {qok : Bool} {pend : List Nat} {s : State R}
-    (h : InvG rank r0 qok pend s) : InvG rank r0 qok pend (tick s) where
+theorem invG_tick {decl : Spec → (R → Bool) → List R} {rank : R → Nat} {r0 : R} {qok : Bool} {pend : List Nat} {s : State R Spec}
+    (h : InvG decl rank r0 qok pend s) : InvG decl rank r0 qok pend (tick s) where
   cached := h.cached
   uncached := h.uncached
   watched := h.watched
@@ -97,18 +104,19 @@ theorem invG_tick {rank : R → Nat} {r0 : R} {qok : Bool} {pend : List Nat} {s 
   prepLt := fun x e hx => Nat.lt_succ_of_lt (h.prepLt x e hx)
   evLt := fun x q hq t ht => Nat.lt_succ_of_lt (h.evLt x q hq t ht)
   ranked := h.ranked
+  specOk := h.specOk
 
-theorem notify_queue_isSome (s : State R) (d : R) (t : Nat) (x : R) :
+theorem notify_queue_isSome (s : State R Spec) (d : R) (t : Nat) (x : R) :
     ((notify s d t).queue x).isSome = (s.queue x).isSome := by
   unfold notify; simp only; split <;> simp
 
-theorem notify_queue_none (s : State R) (d : R) (t : Nat) (x : R) :
+theorem notify_queue_none (s : State R Spec) (d : R) (t : Nat) (x : R) :
     (notify s d t).queue x = none ↔ s.queue x = none := by
   unfold notify; simp only; split <;> simp
 
-theorem invG_notify {rank : R → Nat} {r0 : R} {qok : Bool} {pend : List Nat} {s : State R}
-    (h : InvG rank r0 qok pend s) (d : R) (t : Nat) (ht : t < s.clock) :
-    InvG rank r0 qok pend (notify s d t) where
+theorem invG_notify {decl : Spec → (R → Bool) → List R} {rank : R → Nat} {r0 : R} {qok : Bool} {pend : List Nat} {s : State R Spec}
+    (h : InvG decl rank r0 qok pend s) (d : R) (t : Nat) (ht : t < s.clock) :
+    InvG decl rank r0 qok pend (notify s d t) where
   cached := fun x e hx => ⟨(h.cached x e hx).1, by rw [notify_queue_isSome]; exact (h.cached x e hx).2⟩
   uncached := fun x hx => by
     obtain ⟨a, b, c⟩ := h.uncached x hx
@@ -133,19 +141,20 @@ theorem invG_notify {rank : R → Nat} {r0 : R} {qok : Bool} {pend : List Nat} {
         · exact h.evLt x q0 hsq t' ht'
     · exact h.evLt x q hq t' ht'
   ranked := h.ranked
+  specOk := h.specOk
 
-theorem register_some {s : State R} {r : R} {q : List Nat} (hq : s.queue r = some q) :
+theorem register_some {s : State R Spec} {r : R} {q : List Nat} (hq : s.queue r = some q) :
     register s r = s := by simp [register, hq]
 
-theorem register_none {s : State R} {r : R} (hq : s.queue r = none) :
+theorem register_none {s : State R Spec} {r : R} (hq : s.queue r = none) :
     register s r = notify (tick { s with queue := upd s.queue r (some []) }) r s.clock := by
   simp [register, hq]
 
 /-- `registry.register` inside `prepare_and_cache` / the monitor: afterwards `r` has a queue;
     nothing but queues and the clock changes -/
-theorem invG_register {rank : R → Nat} {r : R} {qok : Bool} {pend : List Nat} {s : State R}
-    (h : InvG rank r qok pend s) :
-    InvG rank r true pend (register s r) ∧ ((register s r).queue r).isSome = true ∧
+theorem invG_register {decl : Spec → (R → Bool) → List R} {rank : R → Nat} {r : R} {qok : Bool} {pend : List Nat} {s : State R Spec}
+    (h : InvG decl rank r qok pend s) :
+    InvG decl rank r true pend (register s r) ∧ ((register s r).queue r).isSome = true ∧
     (register s r).cache = s.cache ∧ (register s r).gen = s.gen ∧ (register s r).subs = s.subs ∧
     (register s r).mon = s.mon ∧ (register s r).prepT = s.prepT ∧ s.clock ≤ (register s r).clock := by
   cases hq : s.queue r with
@@ -161,10 +170,11 @@ theorem invG_register {rank : R → Nat} {r : R} {qok : Bool} {pend : List Nat} 
       fresh := h.fresh
       prepLt := h.prepLt
       evLt := h.evLt
-      ranked := h.ranked }
+      ranked := h.ranked
+      specOk := h.specOk }
   | none =>
     rw [register_none hq]
-    have hbase : InvG rank r true pend { s with queue := upd s.queue r (some []) } := {
+    have hbase : InvG decl rank r true pend { s with queue := upd s.queue r (some []) } := {
       cached := fun x e hx => by
         refine ⟨(h.cached x e hx).1, ?_⟩
         by_cases hxr : x = r
@@ -189,7 +199,8 @@ theorem invG_register {rank : R → Nat} {r : R} {qok : Bool} {pend : List Nat} 
         by_cases hxr : x = r
         · subst hxr; simp at hq'; subst hq'; simp at ht
         · simp only [upd_other _ _ _ hxr] at hq'; exact h.evLt x q' hq' t ht
-      ranked := h.ranked }
+      ranked := h.ranked
+      specOk := h.specOk }
     have hn := invG_notify (invG_tick hbase) r s.clock (by simp [tick])
     refine ⟨hn, ?_, rfl, rfl, rfl, rfl, rfl, by simp [notify, tick]⟩
     rw [notify_queue_isSome]; simp [tick]
@@ -197,51 +208,52 @@ theorem invG_register {rank : R → Nat} {r : R} {qok : Bool} {pend : List Nat} 
 /-! ### committing a (re)preparation: cache write + `_handle_notifications` -/
 
 /-- the state after the preparer has run and the entry is written (ghost `gen r` bumped) -/
-def writeEntry (s : State R) (r : R) (v : Nat) (deps : List R) : State R :=
-  { s with cache := upd s.cache r (some { version := v, deps := deps, seen := s.gen }),
+def writeEntry (s : State R Spec) (r : R) (v : Nat) (spec : Spec) (deps : List R) : State R Spec :=
+  { s with cache := upd s.cache r (some { version := v, spec := spec, deps := deps, seen := s.gen }),
            gen := upd s.gen r (s.gen r + 1) }
 
 /-- explicit form of the state after `_handle_notifications` -/
-def commitState (s : State R) (r : R) (v : Nat) (deps : List R) (t0 : Nat) (monF : R → Mon) :
-    State R :=
-  { cache := upd s.cache r (some { version := v, deps := deps, seen := s.gen }),
+def commitState (s : State R Spec) (r : R) (v : Nat) (spec : Spec) (deps : List R) (t0 : Nat)
+    (monF : R → Mon) : State R Spec :=
+  { cache := upd s.cache r (some { version := v, spec := spec, deps := deps, seen := s.gen }),
     gen := upd s.gen r (s.gen r + 1),
     subs := upd s.subs r deps,
     queue := fun x => if r ∈ upd s.subs r deps x then (s.queue x).map (s.clock :: ·) else s.queue x,
     mon := monF, prepT := upd s.prepT r t0, clock := s.clock + 1 }
 
-theorem handle_eq (s : State R) (r : R) (v : Nat) (deps : List R) (t0 : Nat) (m : Bool) :
-    handleNotifications (tick (writeEntry s r v deps)) r deps t0 s.clock m =
-      commitState s r v deps t0
+theorem handle_eq (s : State R Spec) (r : R) (v : Nat) (spec : Spec) (deps : List R) (t0 : Nat) (m : Bool) :
+    handleNotifications (tick (writeEntry s r v spec deps)) r deps t0 s.clock m =
+      commitState s r v spec deps t0
         (if m = true ∧ deps ≠ [] ∧ s.mon r = .none then upd s.mon r .starting else s.mon) := by
   by_cases hc : m = true ∧ deps ≠ [] ∧ s.mon r = .none
-  · have hc' : m = true ∧ deps ≠ [] ∧ (notify { tick (writeEntry s r v deps) with
-        prepT := upd (tick (writeEntry s r v deps)).prepT r t0,
-        subs := upd (tick (writeEntry s r v deps)).subs r deps } r s.clock).mon r = .none := hc
+  · have hc' : m = true ∧ deps ≠ [] ∧ (notify { tick (writeEntry s r v spec deps) with
+        prepT := upd (tick (writeEntry s r v spec deps)).prepT r t0,
+        subs := upd (tick (writeEntry s r v spec deps)).subs r deps } r s.clock).mon r = .none := hc
     simp only [handleNotifications, if_pos hc', if_pos hc]
     rfl
-  · have hc' : ¬ (m = true ∧ deps ≠ [] ∧ (notify { tick (writeEntry s r v deps) with
-        prepT := upd (tick (writeEntry s r v deps)).prepT r t0,
-        subs := upd (tick (writeEntry s r v deps)).subs r deps } r s.clock).mon r = .none) := hc
+  · have hc' : ¬ (m = true ∧ deps ≠ [] ∧ (notify { tick (writeEntry s r v spec deps) with
+        prepT := upd (tick (writeEntry s r v spec deps)).prepT r t0,
+        subs := upd (tick (writeEntry s r v spec deps)).subs r deps } r s.clock).mon r = .none) := hc
     simp only [handleNotifications, if_neg hc', if_neg hc]
     rfl
 
-theorem inv_commitState {rank : R → Nat} {r : R} {qok : Bool} {pend : List Nat} {s : State R}
-    (h : InvG rank r qok pend s) (hq : (s.queue r).isSome = true) (v : Nat) (deps : List R)
+theorem inv_commitState {decl : Spec → (R → Bool) → List R} {rank : R → Nat} {r : R} {qok : Bool} {pend : List Nat} {s : State R Spec}
+    (h : InvG decl rank r qok pend s) (hq : (s.queue r).isSome = true) (v : Nat) (spec : Spec)
+    (hspec : SpecRanked decl rank r spec) (deps : List R)
     (hrank : ∀ d ∈ deps, rank d < rank r) (t0 : Nat) (ht0 : t0 < s.clock) (monF : R → Mon)
     (hmo : ∀ x, x ≠ r → monF x = s.mon x) (hmr : deps ≠ [] → monF r ≠ .none) :
-    Inv rank (commitState s r v deps t0 monF) := by
+    Inv decl rank (commitState s r v spec deps t0 monF) := by
   have hnotself : r ∉ deps := fun hmem => Nat.lt_irrefl _ (hrank r hmem)
-  have hcache_r : (commitState s r v deps t0 monF).cache r =
-      some { version := v, deps := deps, seen := s.gen } := by simp [commitState]
-  have hcache_o : ∀ x, x ≠ r → (commitState s r v deps t0 monF).cache x = s.cache x := by
+  have hcache_r : (commitState s r v spec deps t0 monF).cache r =
+      some { version := v, spec := spec, deps := deps, seen := s.gen } := by simp [commitState]
+  have hcache_o : ∀ x, x ≠ r → (commitState s r v spec deps t0 monF).cache x = s.cache x := by
     intro x hx; simp [commitState, upd_other _ _ _ hx]
-  have hqsome : ∀ x, ((commitState s r v deps t0 monF).queue x).isSome = (s.queue x).isSome := by
+  have hqsome : ∀ x, ((commitState s r v spec deps t0 monF).queue x).isSome = (s.queue x).isSome := by
     intro x; simp only [commitState]; split <;> simp
-  have hqnone : ∀ x, (commitState s r v deps t0 monF).queue x = none ↔ s.queue x = none := by
+  have hqnone : ∀ x, (commitState s r v spec deps t0 monF).queue x = none ↔ s.queue x = none := by
     intro x; simp only [commitState]; split <;> simp
   refine { cached := ?_, uncached := ?_, watched := ?_, fresh := ?_, prepLt := ?_, evLt := ?_,
-           ranked := ?_ }
+           ranked := ?_, specOk := ?_ }
   · intro x e hx
     rw [hqsome]
     by_cases hxr : x = r
@@ -317,19 +329,28 @@ theorem inv_commitState {rank : R → Nat} {r : R} {qok : Bool} {pend : List Nat
     by_cases hxr : x = r
     · subst hxr; simp only [commitState, upd_same] at hd; exact hrank d hd
     · simp only [commitState, upd_other _ _ _ hxr] at hd; exact h.ranked x d hd
+  · intro x e hx
+    by_cases hxr : x = r
+    · subst hxr
+      rw [hcache_r] at hx; cases hx
+      exact hspec
+    · rw [hcache_o x hxr] at hx
+      exact h.specOk x e hx
 
 /-! ### the composite actions -/
 
-theorem offerNew_eq (s : State R) (r : R) (v : Nat) (deps : List R) :
-    offerNew s r v deps =
-      handleNotifications (tick (writeEntry (register (tick s) r) r v deps)) r deps s.clock
-        (register (tick s) r).clock true := rfl
+theorem offerNew_eq (decl : Spec → (R → Bool) → List R) (s : State R Spec) (r : R) (v : Nat) (spec : Spec) :
+    offerNew decl s r v spec =
+      handleNotifications
+        (tick (writeEntry (register (tick s) r) r v spec (decl spec (cachedB (register (tick s) r)))))
+        r (decl spec (cachedB (register (tick s) r))) s.clock (register (tick s) r).clock true := rfl
 
-theorem inv_offerNew {rank : R → Nat} {s : State R} (h : Inv rank s) (r : R) (v : Nat)
-    (deps : List R) (hrank : ∀ d ∈ deps, rank d < rank r) : Inv rank (offerNew s r v deps) := by
+theorem inv_offerNew {decl : Spec → (R → Bool) → List R} {rank : R → Nat} {s : State R Spec}
+    (h : Inv decl rank s) (r : R) (v : Nat) (spec : Spec) (hrank : SpecRanked decl rank r spec) :
+    Inv decl rank (offerNew decl s r v spec) := by
   obtain ⟨hG, hq, -, -, -, -, -, hclk⟩ := invG_register (invG_tick (h.toG r false []))
   rw [offerNew_eq, handle_eq]
-  refine inv_commitState hG hq v deps hrank s.clock ?_ _ ?_ ?_
+  refine inv_commitState hG hq v spec hrank _ (hrank _) s.clock ?_ _ ?_ ?_
   · have : (tick s).clock = s.clock + 1 := rfl
     omega
   · intro x hx
@@ -341,39 +362,48 @@ theorem inv_offerNew {rank : R → Nat} {s : State R} (h : Inv rank s) (r : R) (
     · rw [if_pos ⟨rfl, hne, hc⟩]; simp
     · rw [if_neg (fun hcc => hc hcc.2.2)]; exact hc
 
-theorem inv_offer {rank : R → Nat} {s : State R} (h : Inv rank s) (r : R) (v : Nat)
-    (deps : List R) (hrank : ∀ d ∈ deps, rank d < rank r) : Inv rank (offer s r v deps) := by
+theorem inv_offer {decl : Spec → (R → Bool) → List R} {rank : R → Nat} {s : State R Spec}
+    (h : Inv decl rank s) (r : R) (v : Nat) (spec : Spec) (hrank : SpecRanked decl rank r spec) :
+    Inv decl rank (offer decl s r v spec) := by
   unfold offer
   split
   · split
     · exact h
-    · exact inv_offerNew h r v deps hrank
-  · exact inv_offerNew h r v deps hrank
+    · exact inv_offerNew h r v spec hrank
+  · exact inv_offerNew h r v spec hrank
 
-theorem reprepare_eq {s : State R} {r : R} {e : Entry R} (hc : s.cache r = some e) :
-    reprepare s r =
-      handleNotifications (tick (writeEntry (tick s) r e.version e.deps)) r e.deps s.clock
-        (tick s).clock false := by
+theorem reprepare_eq {decl : Spec → (R → Bool) → List R} {s : State R Spec} {r : R} {e : Entry R Spec}
+    (hc : s.cache r = some e) :
+    reprepare decl s r =
+      handleNotifications (tick (writeEntry (tick s) r e.version e.spec (decl e.spec (cachedB (tick s)))))
+        r (decl e.spec (cachedB (tick s))) s.clock (tick s).clock false := by
   simp only [reprepare, hc]
   rfl
 
-theorem inv_reprepare {rank : R → Nat} {r : R} {pend : List Nat} {s : State R}
-    (h : InvG rank r false pend s) {e : Entry R} (hc : s.cache r = some e) :
-    Inv rank (reprepare s r) := by
+theorem reprepare_mon (decl : Spec → (R → Bool) → List R) (s : State R Spec) (r : R) :
+    (reprepare decl s r).mon = s.mon := by
+  cases hc : s.cache r with
+  | none => simp [reprepare, hc]
+  | some e => rw [reprepare_eq hc, handle_eq]; simp [commitState, tick]
+
+theorem inv_reprepare {decl : Spec → (R → Bool) → List R} {rank : R → Nat} {r : R} {pend : List Nat}
+    {s : State R Spec} (h : InvG decl rank r false pend s) (hmon : s.mon r ≠ .none)
+    {e : Entry R Spec} (hc : s.cache r = some e) :
+    Inv decl rank (reprepare decl s r) := by
   rw [reprepare_eq hc, handle_eq]
   have hG := invG_tick h
-  obtain ⟨hsubs, hq⟩ := h.cached r e hc
-  refine inv_commitState hG hq e.version e.deps ?_ s.clock ?_ _ ?_ ?_
-  · intro d hd; exact h.ranked r d (hsubs ▸ hd)
+  obtain ⟨-, hq⟩ := h.cached r e hc
+  have hspec := h.specOk r e hc
+  refine inv_commitState hG hq e.version e.spec hspec _ (hspec _) s.clock ?_ _ ?_ ?_
   · show s.clock < s.clock + 1; omega
   · intro x _; simp
-  · intro hne; simp only [Bool.false_eq_true, false_and, if_false]
-    exact h.watched r e hc hne
+  · intro _; simp only [Bool.false_eq_true, false_and, if_false]
+    exact hmon
 
-theorem InvG.drop_pend {rank : R → Nat} {r : R} {t : Nat} {rest : List Nat} {s : State R}
-    (h : InvG rank r false (t :: rest) s) (ht : t ≤ s.prepT r) : InvG rank r false rest s :=
+theorem InvG.drop_pend {decl : Spec → (R → Bool) → List R} {rank : R → Nat} {r : R} {t : Nat} {rest : List Nat} {s : State R Spec}
+    (h : InvG decl rank r false (t :: rest) s) (ht : t ≤ s.prepT r) : InvG decl rank r false rest s :=
   { cached := h.cached, uncached := h.uncached, watched := h.watched, prepLt := h.prepLt,
-    evLt := h.evLt, ranked := h.ranked,
+    evLt := h.evLt, ranked := h.ranked, specOk := h.specOk,
     fresh := fun x e hx d hd => by
       rcases h.fresh x e hx d hd with h1 | h1 | ⟨hxr, t', ht', hlt⟩
       · exact Or.inl h1
@@ -383,38 +413,39 @@ theorem InvG.drop_pend {rank : R → Nat} {r : R} {t : Nat} {rest : List Nat} {s
         · subst hxr; omega
         · exact Or.inr (Or.inr ⟨hxr, t', ht', hlt⟩) }
 
-theorem InvG.pend_uncached {rank : R → Nat} {r : R} {p p' : List Nat} {s : State R}
-    (h : InvG rank r false p s) (hc : s.cache r = none) : InvG rank r false p' s :=
+theorem InvG.pend_uncached {decl : Spec → (R → Bool) → List R} {rank : R → Nat} {r : R} {p p' : List Nat} {s : State R Spec}
+    (h : InvG decl rank r false p s) (hc : s.cache r = none) : InvG decl rank r false p' s :=
   { cached := h.cached, uncached := h.uncached, watched := h.watched, prepLt := h.prepLt,
-    evLt := h.evLt, ranked := h.ranked,
+    evLt := h.evLt, ranked := h.ranked, specOk := h.specOk,
     fresh := fun x e hx d hd => by
       rcases h.fresh x e hx d hd with h1 | h1 | ⟨hxr, _⟩
       · exact Or.inl h1
       · exact Or.inr (Or.inl h1)
       · subst hxr; rw [hc] at hx; cases hx }
 
-theorem inv_drain {rank : R → Nat} {r : R} (q : List Nat) {s : State R}
-    (h : InvG rank r false q s) : Inv rank (drain s r q) := by
+theorem inv_drain {decl : Spec → (R → Bool) → List R} {rank : R → Nat} {r : R} (q : List Nat) {s : State R Spec}
+    (h : InvG decl rank r false q s) (hmon : s.mon r ≠ .none) : Inv decl rank (drain decl s r q) := by
   induction q generalizing s with
   | nil => exact h.toInv
   | cons t rest ih =>
     unfold drain
     split
-    · rename_i ht; exact ih (h.drop_pend ht)
+    · rename_i ht; exact ih (h.drop_pend ht) hmon
     · cases hc : s.cache r with
       | none =>
-        have : reprepare s r = s := by simp [reprepare, hc]
-        rw [this]; exact ih (h.pend_uncached hc)
-      | some e => exact ih ((inv_reprepare h hc).toG r false rest)
+        have : reprepare decl s r = s := by simp [reprepare, hc]
+        rw [this]; exact ih (h.pend_uncached hc) hmon
+      | some e =>
+        exact ih ((inv_reprepare h hmon hc).toG r false rest) (by rw [reprepare_mon]; exact hmon)
 
-theorem inv_runDrain {rank : R → Nat} {s : State R} (h : Inv rank s) (r : R) :
-    Inv rank (runDrain s r) := by
+theorem inv_runDrain {decl : Spec → (R → Bool) → List R} {rank : R → Nat} {s : State R Spec} (h : Inv decl rank s) (r : R)
+    (hmon : s.mon r ≠ .none) : Inv decl rank (runDrain decl s r) := by
   unfold runDrain
   cases hq : s.queue r with
   | none => exact h
   | some q =>
     simp only
-    apply inv_drain
+    refine inv_drain q ?_ hmon
     have hcached : ∃ e, s.cache r = some e := by
       cases hc : s.cache r with
       | none => have := (h.uncached r hc).2.2; rw [hq] at this; cases this
@@ -444,9 +475,11 @@ theorem inv_runDrain {rank : R → Nat} {s : State R} (h : Inv rank s) (r : R) :
         by_cases hxr : x = r
         · subst hxr; simp at hq'; subst hq'; simp at ht
         · simp only [upd_other _ _ _ hxr] at hq'; exact h.evLt x q' hq' t ht
-      ranked := h.ranked }
+      ranked := h.ranked
+      specOk := h.specOk }
 
-theorem inv_bg {rank : R → Nat} {s : State R} (h : Inv rank s) (r : R) : Inv rank (bg s r) := by
+theorem inv_bg {decl : Spec → (R → Bool) → List R} {rank : R → Nat} {s : State R Spec} (h : Inv decl rank s) (r : R) :
+    Inv decl rank (bg decl s r) := by
   unfold bg
   split
   · exact h
@@ -462,7 +495,7 @@ theorem inv_bg {rank : R → Nat} {s : State R} (h : Inv rank s) (r : R) : Inv r
     | none => rw [hqr] at hq; cases hq
     | some q =>
       rw [register_some hqr]
-      apply inv_runDrain
+      refine inv_runDrain ?_ r (by simp)
       exact {
         cached := h.cached
         uncached := fun x hx => by
@@ -476,18 +509,19 @@ theorem inv_bg {rank : R → Nat} {s : State R} (h : Inv rank s) (r : R) : Inv r
         fresh := h.fresh
         prepLt := h.prepLt
         evLt := h.evLt
-        ranked := h.ranked }
-  · exact inv_runDrain h r
+        ranked := h.ranked
+        specOk := h.specOk }
+  · rename_i hm; exact inv_runDrain h r (by rw [hm]; simp)
 
 /-- explicit form of the state after an effective delete -/
-def deleteState (s : State R) (r : R) : State R :=
+def deleteState (s : State R Spec) (r : R) : State R Spec :=
   { cache := upd s.cache r none, gen := upd s.gen r (s.gen r + 1), subs := upd s.subs r [],
     queue := fun x => if r ∈ upd s.subs r [] x then (upd s.queue r none x).map (s.clock :: ·)
                       else upd s.queue r none x,
     mon := upd s.mon r .none, prepT := s.prepT, clock := s.clock + 1 }
 
-theorem inv_deleteState {rank : R → Nat} {s : State R} (h : Inv rank s) (r : R) :
-    Inv rank (deleteState s r) := by
+theorem inv_deleteState {decl : Spec → (R → Bool) → List R} {rank : R → Nat} {s : State R Spec} (h : Inv decl rank s) (r : R) :
+    Inv decl rank (deleteState s r) := by
   have hcache_o : ∀ x, x ≠ r → (deleteState s r).cache x = s.cache x := by
     intro x hx; simp [deleteState, upd_other _ _ _ hx]
   have hq_o : ∀ x, x ≠ r → (deleteState s r).queue x =
@@ -495,7 +529,7 @@ theorem inv_deleteState {rank : R → Nat} {s : State R} (h : Inv rank s) (r : R
     intro x hx; simp [deleteState, upd_other _ _ _ hx]
   have hq_r : (deleteState s r).queue r = none := by simp [deleteState]
   refine { cached := ?_, uncached := ?_, watched := ?_, fresh := ?_, prepLt := ?_, evLt := ?_,
-           ranked := ?_ }
+           ranked := ?_, specOk := ?_ }
   · intro x e hx
     have hxr : x ≠ r := by intro e'; subst e'; simp [deleteState] at hx
     rw [hcache_o x hxr] at hx
@@ -559,14 +593,18 @@ theorem inv_deleteState {rank : R → Nat} {s : State R} (h : Inv rank s) (r : R
     by_cases hxr : x = r
     · subst hxr; simp [deleteState] at hd
     · simp only [deleteState, upd_other _ _ _ hxr] at hd; exact h.ranked x d hd
+  · intro x e hx
+    have hxr : x ≠ r := by intro e'; subst e'; simp [deleteState] at hx
+    rw [hcache_o x hxr] at hx
+    exact h.specOk x e hx
 
-theorem delete_eq {s : State R} {r : R} {e : Entry R} {ver : Option Nat} (hc : s.cache r = some e)
+theorem delete_eq {s : State R Spec} {r : R} {e : Entry R Spec} {ver : Option Nat} (hc : s.cache r = some e)
     (hv : staleVersion ver e.version = false) : delete s r ver = deleteState s r := by
   simp only [delete, hc, hv]
   rfl
 
-theorem inv_delete {rank : R → Nat} {s : State R} (h : Inv rank s) (r : R) (ver : Option Nat) :
-    Inv rank (delete s r ver) := by
+theorem inv_delete {decl : Spec → (R → Bool) → List R} {rank : R → Nat} {s : State R Spec} (h : Inv decl rank s) (r : R) (ver : Option Nat) :
+    Inv decl rank (delete s r ver) := by
   cases hc : s.cache r with
   | none => simp only [delete, hc]; exact h
   | some er =>
@@ -574,15 +612,15 @@ theorem inv_delete {rank : R → Nat} {s : State R} (h : Inv rank s) (r : R) (ve
     | true => simp only [delete, hc, hv]; exact h
     | false => rw [delete_eq hc hv]; exact inv_deleteState h r
 
-theorem inv_step {rank : R → Nat} {s : State R} (h : Inv rank s) (a : Action R)
-    (ha : Ranked rank a) : Inv rank (step s a) := by
+theorem inv_step {decl : Spec → (R → Bool) → List R} {rank : R → Nat} {s : State R Spec} (h : Inv decl rank s)
+    (a : Action R Spec) (ha : Ranked decl rank a) : Inv decl rank (step decl s a) := by
   cases a with
-  | offer r v deps => exact inv_offer h r v deps ha
+  | offer r v spec => exact inv_offer h r v spec ha
   | delete r ver => exact inv_delete h r ver
   | bg r => exact inv_bg h r
 
-theorem inv_run {rank : R → Nat} (acts : List (Action R)) {s : State R} (h : Inv rank s)
-    (ha : ∀ a ∈ acts, Ranked rank a) : Inv rank (run s acts) := by
+theorem inv_run {decl : Spec → (R → Bool) → List R} {rank : R → Nat} (acts : List (Action R Spec)) {s : State R Spec}
+    (h : Inv decl rank s) (ha : ∀ a ∈ acts, Ranked decl rank a) : Inv decl rank (run decl s acts) := by
   induction acts generalizing s with
   | nil => exact h
   | cons a rest ih =>
